@@ -40,6 +40,8 @@ func execLocal(line string) (impl, oracle string) {
 		return opDpipe(w[1])
 	case "rid":
 		return opRid(w[1])
+	case "conn":
+		return opConn(w[1])
 	case "disp":
 		return opDisp(w[1])
 	case "mdisp":
